@@ -120,6 +120,15 @@ def build_seed(k):
         if kind.endswith('-data'):
             continue
         ranges.append((kind, s, min(e, len(data))))
+    et = dec['eltorito']
+    if et.present:
+        # boot files are parsed too: the boot info table (bytes 8..64 of a boot file) is
+        # re-validated when an image is opened
+        ents = ([et.initial] if et.initial is not None else []) + [e for sec in et.sections for e in sec.entries]
+        for e_ in ents:
+            st = e_.load_rba * 2048
+            if 0 < st < len(data) - 64:
+                ranges.append(('boot-info-table', st + 8, st + 64))
     if dec['hybrid'].present:
         # the system area by sub-structure (fixed positions of the isohybrid layout), and the backup GPT
         ranges += [('mbr', 0, 512), ('mbr-partitions', 440, 512), ('gpt-header', 512, 604), ('gpt-entries', 1024, 1024 + 4 * 128),
@@ -269,10 +278,40 @@ def attempt(data, counters, with_mem=False):
     return res
 
 
-def run_fault(k, cs, counters):
+_sweeps = {}
+
+
+def sweep_list(k):
+    """Deterministic enumeration for the small fixed-layout structures of seed image k (headers,
+    partition tables, boot info tables, anchors): every byte set to 0xff / 0x7f and every aligned
+    32-bit field set to 0xffffffff - the 'huge count or length' class, without relying on chance."""
+    if k not in _sweeps:
+        name, data, ranges = seed(k)
+        out = []
+        seen = set()
+        for kind, s_, e_ in ranges:
+            if e_ - s_ > 128 or (kind, s_) in seen:
+                continue
+            seen.add((kind, s_))
+            for off in range(s_, e_):
+                out.append((kind, off, 1, 0xff))
+                out.append((kind, off, 1, 0x7f))
+                if (off - s_) % 4 == 0 and off + 4 <= len(data):
+                    out.append((kind, off, 4, 0xffffffff))
+        _sweeps[k] = out
+    return _sweeps[k]
+
+
+def run_fault(k, cs, counters, sweep=None):
     name, data, ranges = seed(k)
     rng = random.Random(cs)
-    mutated, desc = make_fault(rng, data, ranges)
+    if sweep is not None:
+        kind, off, width, val = sweep
+        b = bytearray(data)
+        b[off:off + width] = val.to_bytes(width, 'little')
+        mutated, desc = bytes(b), {'fault': 'sweep', 'structure': kind, 'offset': off, 'width': width, 'value': '%#x' % val}
+    else:
+        mutated, desc = make_fault(rng, data, ranges)
     with_mem = (cs % 16 == 0)
     res = attempt(mutated, counters, with_mem)
     counters['opens_attempted'] = counters.get('opens_attempted', 0) + 1
@@ -297,11 +336,22 @@ def run_case(i, seed_, tier):
     counters = {}
     k = i % NSEEDS
     cs = seed_ * 10000019 + i
-    vio, desc, res, inconclusive = run_fault(k, cs, counters)
+    sweep = None
+    nsweep = 9000 if tier == 'quick' else 60000
+    if i < nsweep:
+        lst = sweep_list(k)
+        if lst:
+            j = i // NSEEDS + seed_ * 997
+            if tier != 'quick' and i // NSEEDS >= len(lst):
+                lst = None     # the whole enumeration is done: random faults from here on
+            else:
+                sweep = lst[j % len(lst)]
+                counters['sweep_cases'] = 1
+    vio, desc, res, inconclusive = run_fault(k, cs, counters, sweep)
     shape = '%d/%s/%s/%s' % (k, desc['fault'], desc.get('structure'), desc.get('value', ''))
     nt = desc['fault'] != 'random' or True
     for v in vio:
-        v['replay'] = {'property': PROPERTY, 'seed_image': k, 'case_seed': cs}
+        v['replay'] = {'property': PROPERTY, 'seed_image': k, 'case_seed': cs, 'sweep': list(sweep) if sweep else None}
     return {'verdict': 'inconclusive' if (inconclusive and not vio) else ('violated' if vio else 'held'), 'violations': vio,
             'nontrivial': True, 'shape': shape,
             'sample': {'seed_image': k, 'fault': desc, 'outcome': res['outcome'], 'steps': res['steps'], 'input_len': None},
@@ -309,5 +359,5 @@ def run_case(i, seed_, tier):
 
 
 def replay(doc):
-    vio, desc, res, inc = run_fault(doc['seed_image'], doc['case_seed'], {})
+    vio, desc, res, inc = run_fault(doc['seed_image'], doc['case_seed'], {}, tuple(doc['sweep']) if doc.get('sweep') else None)
     return vio
